@@ -28,6 +28,18 @@ THEOREMS = [
     "Verif.C12.odijk_force_of_distance",
     "Verif.C12.trig_root_order",
     "Verif.C12.ms_selected_root_partial",
+    "Verif.C12.cubic_cardano_unique",
+    "Verif.C12.cubic_cardano_boundary",
+    "Verif.C12.ms_selected_root",
+    "Verif.C12.ms_force_of_distance",
+    "Verif.C12.ms_distance_of_force",
+    "Verif.C12.ems_distance_is_shifted_ms",
+    "Verif.C12.ems_distance_selected_root",
+    "Verif.C12.ems_force_selected_root",
+    "Verif.C12.ems_force_solves_all",
+    "Verif.C12.ems_distance_solves_all",
+    "Verif.C12.ems_force_of_distance",
+    "Verif.C12.ems_distance_of_force",
     "Verif.C12.composite_is_sum",
     "Verif.C12.offset_shifts_independent",
     "Verif.C12.routing_by_name",
@@ -646,6 +658,21 @@ def run_case(case):
                 ans.append(r)
                 ops.append(eval_op(e, params, [via["x"]]))
             return ans, ops
+        if op == "shift":
+            # theorem ems_distance_is_shifted_ms on the implementation: the extensible and the inextensible
+            # Marko-Siggia distance at the same forces and parameters (two public constructors, two cubics)
+            Lp, Lc, St, kT = case["args"]
+            ans, ops = [], []
+            for kind, a in (("ewlc_marko_siggia_distance", [Lp, Lc, St, kT]), ("wlc_marko_siggia_distance", [Lp, Lc, kT])):
+                e = ["b", kind, "m"]
+                params = dict(zip(p_names(e), a))
+                try:
+                    r = show(call(build(e), np.array(case["xs"], dtype=float), params))
+                except Exception as ex:  # noqa: BLE001
+                    r = errname(ex)
+                ans.append(r)
+                ops.append(eval_op(e, params, case["xs"]))
+            return ans, ops
         if op == "names":
             e = case["expr"]
             try:
@@ -866,7 +893,10 @@ def oracle(case, ia):
             vals.append((k, y))
             scale = abs(y) ** 3 + abs(a) * y * y + abs(b) * abs(y) + abs(c)
             res = y**3 + a * y * y + b * y + c
-            if math.isfinite(scale) and abs(res) > 1e-3 * scale + 1e-300:
+            # a root at (or next to) zero: the returned value carries an ABSOLUTE error of a few ulp of the roots' scale
+            # (y = t - a/3), which the terms at y do not show; rs = Cauchy-type scale of the roots
+            rs = max(abs(a), math.sqrt(abs(b)), abs(c) ** (1.0 / 3.0))
+            if math.isfinite(scale) and abs(res) > 1e-3 * scale + 1e-9 * rs**3 + 1e-300:
                 return f"cubic-root: calc_cubic_root({a},{b},{c},{k}) = {y} is not a root: residual {res:.3e} vs term scale {scale:.3e}"
         p = b - a * a / 3.0
         q = 2 * a**3 / 27.0 - a * b / 3.0 + c
@@ -882,6 +912,33 @@ def oracle(case, ia):
                 return f"cubic-vieta: three real roots {y0},{y1},{y2} do not sum to -a={-a}"
             if not (y1 <= y0 + 1e-9 * sc and y0 <= y2 + 1e-9 * sc):
                 return f"cubic-order: roots not ordered root1 <= root0 <= root2: {y1},{y0},{y2}"
+        exact = case.get("roots")
+        if exact is not None:
+            # small scope: the cubic was built from these exact roots (real ones listed, ascending)
+            sc = max([abs(t) for t in exact] + [1.0])
+            for k, y in vals:
+                if len(exact) == 3 and exact[0] < exact[1] < exact[2]:
+                    want = {0: exact[1], 1: exact[0], 2: exact[2]}[k]
+                    if abs(y - want) > 1e-6 * sc:
+                        return (f"cubic-selection: calc_cubic_root({a},{b},{c},{k}) = {y}: with three distinct real roots "
+                                f"{exact} root 1 is the smallest, root 0 the middle, root 2 the largest one")
+                elif len(exact) == 1:
+                    if abs(y - exact[0]) > 1e-6 * sc:
+                        return f"cubic-unique: calc_cubic_root({a},{b},{c},{k}) = {y} but the only real root is {exact[0]}"
+                elif min(abs(y - t) for t in exact) > 1e-4 * sc:
+                    # repeated roots (det = 0 up to rounding): a root, to the sqrt(eps) sensitivity of a double root
+                    return f"cubic-root: calc_cubic_root({a},{b},{c},{k}) = {y} is none of the roots {exact}"
+        if len(vals) == 3 and det > 1e3 * det_err and det > 1e-6 * (q * q / 4 + abs(p) ** 3 / 27):
+            # Cardano regime, discriminant clearly positive: ONE real root, whatever root was asked for
+            ys = [v for _, v in vals]
+            sc = max(abs(ys[0]), abs(a), 1e-300)
+            if max(ys) - min(ys) > 1e-9 * sc:
+                return f"cubic-unique: det > 0 (one real root) but the selected roots differ: {ys}"
+            y = ys[0]
+            # the other two roots solve x^2 + (a + y) x + (b + (a + y) y): they must not be real
+            d2 = (a + y) ** 2 - 4.0 * (b + (a + y) * y)
+            if d2 > 1e-3 * ((a + y) ** 2 + 4.0 * abs(b + (a + y) * y)):
+                return f"cubic-unique: det > 0 but after dividing out the returned root {y} the quadratic factor has real roots"
         via = case.get("via")
         if via and len(ia) > len(case["ks"]):
             # the public constructor that has to solve this cubic, judged by its published equation
@@ -889,6 +946,20 @@ def oracle(case, ia):
             if got is None or len(got) != 1:
                 return f"evaluation: {via['kind']}({via['x']}) on valid input gave {ia[len(case['ks'])][:60]}"
             return published_clause(via["kind"], via["args"], [via["x"]], got)
+        return None
+    if op == "shift":
+        Lp, Lc, St, kT = case["args"]
+        ems, ms = dec_vals(ia[0]), dec_vals(ia[1])
+        if ems is None or ms is None or len(ems) != len(case["xs"]) or len(ms) != len(case["xs"]):
+            return f"evaluation: Marko-Siggia distance models on valid input gave {ia[0][:40]} / {ia[1][:40]}"
+        for F, de, dm in zip(case["xs"], ems, ms):
+            # published relations: F Lp/kT = h(d/Lc) and F Lp/kT = h(d/Lc - F/St), h(x) = 1/4 (1-x)^-2 - 1/4 + x, so the
+            # extensible extension is the inextensible one plus the elastic stretch Lc F / St
+            if not abs(de - dm - Lc * F / St) <= TOL_CLOSED * Lc:
+                return (f"elastic-shift: ewlc_marko_siggia_distance({F}) = {de}, wlc_marko_siggia_distance({F}) = {dm}: "
+                        f"the difference {de - dm} is not the elastic stretch Lc F/St = {Lc * F / St}")
+            if not (0.0 < dm < Lc):
+                return f"selected-root: wlc_marko_siggia_distance({F}) = {dm} is not strictly between 0 and Lc = {Lc}"
         return None
     if op == "names":
         e = case["expr"]
@@ -1273,6 +1344,9 @@ def shrink(case):
             c = dict(case)
             c["xs"] = case["xs"][:1]
             yield c
+    if case["op"] == "shift" and len(case["xs"]) > 1:
+        for x in case["xs"]:
+            yield dict(case, xs=[x])
     if case["op"] == "cubic" and len(case["ks"]) > 1:
         for k in case["ks"]:
             c = dict(case)
@@ -1571,6 +1645,28 @@ def small_scope(rng, quick):
                                n=3, include_low=True)
             if c is not None:
                 yield c
+    # calc_cubic_root, exhaustive: every monic cubic with roots in {-3..3} (three real roots incl. every double and
+    # triple root: det = 0 exactly or up to rounding) and every (y - r)(y^2 - 2 re y + re^2 + im^2), r, re in -2..2,
+    # im in {1, 2} (one real root), at unit scale and at scale 1/4; all three selected roots
+    for sc in (1.0, 0.25):
+        vals = [sc * t for t in range(-3, 4)]
+        for i1, r1 in enumerate(vals):
+            for i2 in range(i1, len(vals)):
+                for i3 in range(i2, len(vals)):
+                    yield {"stream": "small-scope", "op": "cubic", "ks": [0, 1, 2],
+                           "abc": [float(t) for t in cubic_from_roots(r1, vals[i2], vals[i3])],
+                           "roots": [float(r1), float(vals[i2]), float(vals[i3])]}
+        for r1 in range(-2, 3):
+            for re in range(-2, 3):
+                for im in (1, 2):
+                    yield {"stream": "small-scope", "op": "cubic", "ks": [0, 1, 2],
+                           "abc": [float(t) for t in cubic_one_real(sc * r1, sc * re, sc * im)], "roots": [float(sc * r1)]}
+    yield {"stream": "small-scope", "op": "cubic", "ks": [3], "abc": [0.0, -1.0, 0.0], "roots": [-1.0, 0.0, 1.0]}
+    # the extensible and the inextensible Marko-Siggia distance at the same forces (elastic shift Lc F/St), default
+    # parameters and a short / soft tether, forces over the whole common validity range on both sides of det = 0
+    for args in ([40.0, 16.0, 1500.0, 4.11], [40.0, 0.3, 750.0, 4.11], [60.0, 30.0, 2250.0, 2.055], [20.0, 2.0, 750.0, 6.165]):
+        yield {"stream": "small-scope", "op": "shift", "args": args,
+               "xs": [0.05, 0.06, 0.07, 0.08, 0.09, 0.1, 0.15, 0.2, 0.3, 0.5, 1.0, 2.0, 5.0, 10.0, 20.0, 40.0, 60.0, 80.0]}
     # sessions of two DNA convenience models (every ordered pair of the four public names), built for different and
     # for equal temperatures, both observed after the second one exists
     for c1 in sorted(DNA_CTORS):
@@ -1953,6 +2049,14 @@ def cases(tier, rng):
         if c is not None:
             yield c
 
+    # ---- (a') elastic shift between the two Marko-Siggia distance models (theorem ems_distance_is_shifted_ms)
+    r = rng.fork("c12-shift")
+    for i in range(300 if quick else 6000):
+        sub = r.fork(i)
+        args = [draw_param(sub, "ewlc_marko_siggia_distance", x) for x in A4]
+        xs = forces_for(sub, "wlc_marko_siggia_distance", [args[0], args[1], args[3]], sub.randint(1, 8))
+        yield {"stream": "random", "op": "shift", "args": [float(t) for t in args], "xs": [float(x) for x in xs], "subseed": i}
+
     # ---- (c) DNA parametrisations
     r = rng.fork("c12-dna")
     lk_names = [("dsdna_ewlc_odijk_distance", 0.34), ("ssdna_efjc_distance", 0.56), ("dsdna_odijk", 0.34), ("ssdna_fjc", 0.56)]
@@ -2040,9 +2144,41 @@ def extra_coverage(results):
               "cases_also_through_the_public_constructor": 0}
     msess = {"sessions": 0, "queries": 0, "with_two_parameter_sets": 0, "by_query_kind": {}, "by_expression": {},
              "through_scipy_solver": 0, "queries_after_in_place_overwrite_of_the_same_buffer": 0}
+    by_ctor = {}   # closed-form constructor -> branch of calc_cubic_root -> [values, of which inside the relation's domain]
+    small_cubic = {"three distinct real roots": 0, "repeated root (det = 0 up to rounding)": 0, "one real root": 0}
+    shift = {"cases": 0, "forces": 0, "det>=0 (Cardano)": 0, "det<0 (trigonometric)": 0}
     for r in results:
         c = r["case"]
         kinds[c["op"]] = kinds.get(c["op"], 0) + 1
+        if c["op"] == "cubic" and "roots" in c and c["ks"] != [3]:
+            ex = c["roots"]
+            small_cubic["one real root" if len(ex) == 1 else "three distinct real roots" if len(set(ex)) == 3
+                        else "repeated root (det = 0 up to rounding)"] += 1
+        if c["op"] == "shift" and r["model"] and r["model"][0].startswith("["):
+            shift["cases"] += 1
+            shift["forces"] += len(c["xs"])
+            for _, _, br in parse_model_list(r["model"][0]):
+                shift["det>=0 (Cardano)" if br == "C" else "det<0 (trigonometric)"] += 1
+        # where the value a closed-form inverse returned lies, per branch of the cubic (theorems *_selected_root):
+        # the IMPLEMENTATION's value is classified, the branch is the model's
+        probe = None
+        if c["op"] == "chain" and c["expr"][0] == "b" and base_kind(c["expr"]) in CUBIC_KINDS and c.get("valid"):
+            probe = (base_kind(c["expr"]), args_of(c["expr"], c["params"]), c["xs"], r["impl"][0], r["model"][0])
+        if c["op"] == "shift":
+            probe = ("wlc_marko_siggia_distance", [c["args"][0], c["args"][1], c["args"][3]], c["xs"], r["impl"][1], r["model"][1])
+        if probe and probe[3].startswith("[") and probe[4].startswith("["):
+            kind, a, xs_, got, mod = probe[0], probe[1], probe[2], dec_vals(probe[3]), parse_model_list(probe[4])
+            for x, g, (_, _, br) in zip(xs_, got, mod):
+                if kind == "wlc_marko_siggia_distance":
+                    inside = 0.0 < g < a[1]
+                elif kind == "ewlc_odijk_force":
+                    inside = g > 0 and g >= (x / a[1] - 1.0) * a[2]
+                else:
+                    F, d = (g, x) if kind.endswith("force") else (x, g)
+                    inside = 1.0 - d / a[1] + F / a[2] > 0
+                slot = by_ctor.setdefault(kind, {}).setdefault("det>=0 (Cardano)" if br == "C" else "det<0 (trigonometric)", [0, 0])
+                slot[0] += 1
+                slot[1] += bool(inside)
         if c["op"] == "session":
             msess["sessions"] += 1
             msess["queries"] += len(c["steps"])
@@ -2118,6 +2254,9 @@ def extra_coverage(results):
             "cubic is tied only through the public constructors (cases_also_through_the_public_constructor and every "
             "chain / session case of the four closed-form inverses)"),
         "cubic_branch_split_calc_cubic_root": {"det>=0 (Cardano)": cubic_br.get("C", 0), "det<0 (trigonometric)": cubic_br.get("T", 0)},
+        "selected_root_by_constructor_and_branch [values, inside the domain of the published relation]": by_ctor,
+        "calc_cubic_root_small_scope_exhaustive": small_cubic,
+        "marko_siggia_elastic_shift": shift,
         "cubic_branch_split_inside_models": {"det>=0 (Cardano)": branches.get("C", 0), "det<0 (trigonometric)": branches.get("T", 0)},
         "values_compared_within_model_error_bound": compared,
         "values_dropped_bound_undetermined (det~0 or >1e-2 relative)": dropped,
